@@ -190,6 +190,10 @@ structure St where
   cache : List CacheEntry := []
   steps : Nat := 0
   extNames : List String := []
+  /-- C06/C19 instrumentation, most recent first, never read by the evaluator: `<class>:<name>` for every
+  operation the Go code performs IN PLACE on storage that other bindings may share (index assignment on
+  an array above `maxSmallArray`, set/delete on a `*BigMap`, `+` with a large array on the left) -/
+  hazards : List String := []
   deriving Inhabited
 
 end Grol.E
